@@ -9,6 +9,23 @@
 
 uint32_t time_now(void) { return 0; }
 
+/* This file shares a translation unit with the library sources above (it needs fibre.c's statics). Its own
+ * file-scope identifiers are renamed so that a helper or static the library may grow (body, setup, probe, ...) can
+ * never collide with them. */
+#define body_h c6s_body_h
+#define body_y c6s_body_y
+#define body_z c6s_body_z
+#define check_queues c6s_check_queues
+#define evq c6s_evq
+#define evq_store c6s_evq_store
+#define fib c6s_fib
+#define fy c6s_fy
+#define fz c6s_fz
+#define irq_action c6s_irq_action
+#define main_call c6s_main_call
+#define one_pass c6s_one_pass
+#define P c6s_P
+
 static int body_h(fibre_t *f); static int body_y(fibre_t *f); static int body_z(fibre_t *f);
 static uint8_t evq_store[8];
 static fibre_eventq_t evq;
@@ -71,9 +88,11 @@ static int body_z(fibre_t *f)
 
 void c6_reset(void)
 {
-	memset(&kernel, 0, sizeof(kernel));
-	memset(atomic_runq_buf, 0, sizeof(atomic_runq_buf));
-	messageq_init(&kernel.atomic_runq, atomic_runq_buf, sizeof(atomic_runq_buf), sizeof(atomic_runq_buf[0]));
+	/* the scheduler starts from the state its own static initialisers give it (captured before anything ran), not
+	 * from a re-initialisation with parameters the harness thinks are the same */
+	static typeof(kernel) kernel0; static typeof(atomic_runq_buf) buf0; static int have0;
+	if (!have0) { memcpy(&kernel0, &kernel, sizeof(kernel)); memcpy(buf0, atomic_runq_buf, sizeof(buf0)); have0 = 1; }
+	memcpy(&kernel, &kernel0, sizeof(kernel)); memcpy(atomic_runq_buf, buf0, sizeof(buf0));
 	memset(evq_store, 0, sizeof(evq_store));
 	fibre_eventq_init(&evq, body_h, evq_store, (size_t)(2 * C6.evq_depth), 2);
 	fibre_init(&fy, body_y); fibre_init(&fz, body_z);
@@ -108,6 +127,20 @@ static void check_queues(void)
 		if (l->head && l->tail != last) { orc_queue_problem(q ? "timer queue tail pointer is wrong" : "run queue tail pointer is wrong"); return; }
 	}
 	for (int f = 0; f < NFIB; f++) if (!seen[f] && fib(f)->link.next) { orc_queue_problem("a fibre outside the queues has a dangling link"); return; }
+}
+/* with nothing in flight and nothing pending, every slot of the scheduler's atomic run queue and of the event queue
+ * is free again: claims that succeed as many times as the queue is deep, then fail (the public behaviour, not the
+ * private counters) */
+void c6_check_quiescent_queues(int evq_too)
+{
+	messageq_t *qs[2] = { &kernel.atomic_runq, &evq.eventq };
+	for (int q = 0; q < (evq_too ? 2 : 1); q++) {
+		void *got[40]; int n = 0, depth = q ? C6.evq_depth : (int)lengthof(atomic_runq_buf);
+		while (n < 40) { void *m = messageq_claim(qs[q]); if (!m) break; got[n++] = m; }
+		if (n != depth) { orc_queue_problem(q ? "at quiescence the event queue does not offer all of its buffers again (slots leaked or invented)" :
+						    "at quiescence the atomic run queue does not offer all of its slots again (slots leaked or invented)"); return; }
+		(void)got;
+	}
 }
 
 static void one_pass(int i)
@@ -156,9 +189,15 @@ void c6_main(void *arg)
 	}
 	/* settle: no further stimulus; keep scheduling while anything is runnable (bounded) */
 	for (int k = 0; k < 12 && orc_more_settle(); k++, i++) one_pass(i);
+	/* a request whose fate the ghost could not decide (it raced with a drain or a kill) may still be queued: two more
+	 * passes flush whatever is left, then every slot must be free again */
+	if (!orc_more_settle() && orc_undecided()) { one_pass(i++); one_pass(i++); }
+	/* an implementation may take several passes to work through its atomic run queue: keep scheduling while it holds anything */
+	for (int k = 0; k < 10 && !orc_more_settle() && !messageq_empty(&kernel.atomic_runq); k++) one_pass(i++);
+	if (!orc_more_settle()) c6_check_quiescent_queues(orc_events_all_free());
 }
 
-static void irq_action(int kind)
+static void irq_action(int kind, int who)
 {
 	switch (kind) {
 	case HK_RA_H: case HK_RA_Y: case HK_RA_Z: {
@@ -168,8 +207,9 @@ static void irq_action(int kind)
 		break; }
 	default: {
 		uint8_t v = kind == HK_EV1 ? 0x11 : 0x22;
+		orc_ev_claim_begin(who);
 		uint8_t *e = fibre_eventq_claim(&evq);
-		orc_ev_claimed(v, e ? (int)(e - evq_store) / 2 : -1);
+		orc_ev_claimed(v, e ? (int)(e - evq_store) / 2 : -1, who);
 		if (!e) break;
 		e[0] = v; e[1] = (uint8_t)~v;
 		orc_ev_send_begin((int)(e - evq_store) / 2);
@@ -178,5 +218,5 @@ static void irq_action(int kind)
 		break; }
 	}
 }
-void c6_irq(void *arg) { irq_action(C6.hk[(int)(intptr_t)arg]); }
-void c6_thread_irq(void *arg) { irq_action(C6.hk[(int)(intptr_t)arg]); atomic_fetch_add(&P.threads_done, 1); }
+void c6_irq(void *arg) { irq_action(C6.hk[(int)(intptr_t)arg], (int)(intptr_t)arg); }
+void c6_thread_irq(void *arg) { irq_action(C6.hk[(int)(intptr_t)arg], (int)(intptr_t)arg); atomic_fetch_add(&P.threads_done, 1); }
